@@ -116,6 +116,7 @@ def selftests(ctx):
             rec["applied"] = True
             c2 = runner.Ctx(ctx.prop, "quick", d, ctx.seed)
             mod = importlib.import_module("rules." + ctx.prop)
+            c2.config = getattr(mod, "QUICK_CONFIG", "core")
             try:
                 mod.run(c2)
             except Exception as e:  # a mutant that breaks an anchor also counts as detected (fail closed)
